@@ -700,7 +700,11 @@ def _detect_case(draw):
             "dtype": draw(st.sampled_from(["f8", "f4"])), "bg": draw(_st_bg()), "fault": draw(_st_fault(nc)),
             "layout": draw(st.sampled_from(["C", "T", "T", "strided"])), "ro": draw(st.booleans()),
             "kw": draw(st.sampled_from(_DETECT_FORMS)),
-            "reuse": draw(st.sampled_from(["none", "pollute", "none", "twice", "none", "pollute", "none"]))}
+            # "options_before": an earlier call in the process that used the documented threshold options at other values (on
+            # a short stretch of the same data); its options are its own
+            "reuse": draw(st.sampled_from(["none", "pollute", "none", "twice", "none", "pollute", "none", "options_before",
+                                           "options_before"])),
+            "before": draw(st.sampled_from(["lax", "strict"]))}
 
 
 @st.composite
@@ -854,6 +858,12 @@ def _run_detect(case, ctx):
         return r
 
     first = None
+    if reuse == "options_before":
+        okw = ({"psd_hf_threshold": 2.0, "similarity_threshold": (-0.95, 6.0)} if case.get("before") == "lax" else
+               {"psd_hf_threshold": 0.0002, "similarity_threshold": (-0.05, 0.05)})
+        ctx.label("reuse_options_before_" + str(case.get("before")))
+        if unpack(ctx.call("C15.detect", v.detect_bad_channels, Xin[:, :min(ns, 3000)], fs, **okw)) is None:
+            return
     if reuse == "pollute":
         # another recording of the same shape goes through the function first (the same channels in reverse order, a view of
         # the same buffer); what that call returned must still be intact after the call that is checked, as raw_metrics
